@@ -1,2 +1,26 @@
-import Perp.Model.Integer
-def main : IO Unit := IO.println "driver"
+import Driver.Parse
+import Driver.IntegerD
+
+namespace Driver
+
+def handle (acc : Acc) (line : String) : Acc :=
+  let acc := { acc with lines := acc.lines + 1 }
+  let (kind, kv) := parseLine line
+  match kind with
+  | "I" => handleInteger acc kv line
+  | _ => acc
+
+partial def loop (h : IO.FS.Stream) (acc : Acc) : IO Acc := do
+  let line ← h.getLine
+  if line.isEmpty then return acc
+  loop h (handle acc line)
+
+end Driver
+
+def main : IO UInt32 := do
+  let stdin ← IO.getStdin
+  let acc ← Driver.loop stdin {}
+  for m in acc.out do
+    IO.println m
+  IO.println s!"SUMMARY lines={acc.lines} checked={acc.checked} disagree={acc.disagree} specfail={acc.specfail}"
+  return 0
